@@ -183,7 +183,7 @@ pub fn run(cfg: &Cfg) -> Report {
             symbols.push(x);
         }
     }
-    symbols.extend(gen::random_larger_2d_symbols(seed, cfg.tier.pick(5_000, 80_000), cfg.tier.pick(16, 30), &[1, 1, 1, 2, 2, 3, 4, 5, 6, 7, 10, 12, 15]));
+    symbols.extend(gen::random_larger_2d_symbols(seed, cfg.tier.pick(20_000, 80_000), cfg.tier.pick(16, 30), &[1, 1, 1, 2, 2, 3, 4, 5, 6, 7, 10, 12, 15]));
     for (_, s) in gen::structured_2d_sets() {
         for _ in 0..cfg.tier.pick(3, 20) {
             symbols.push(gen::random_branching(&mut rng0, &s, &[1, 1, 1, 2, 3, 10, 11, 99, 100, 101]));
@@ -206,7 +206,7 @@ pub fn run(cfg: &Cfg) -> Report {
     report.absorb(ctx);
 
     // covers: curvature is multiplied by the sheet number
-    let bases: Vec<MSym> = symbols.iter().filter(|s| s.n <= 4 && s.v.iter().flatten().all(|&v| v <= 20)).step_by(cfg.tier.pick(11, 3)).cloned().collect();
+    let bases: Vec<MSym> = symbols.iter().filter(|s| s.n <= 4 && s.v.iter().flatten().all(|&v| v <= 20)).step_by(cfg.tier.pick(5, 3)).cloned().collect();
     let ctx = par_items(cfg, &bases, |ctx, k, b| {
         let mut covers: Vec<MSym> = vec![];
         let c = b.double_cover_by_cocycle(&|_, _| true);
